@@ -119,8 +119,17 @@ func (s *Sim) fireFault() bool {
 			kindIdx = seamBeforeSync
 		}
 		cd := 1 + s.tape.Draw(5)
+		arm := &crashArm{kind: kindIdx, countdown: cd}
+		if kindIdx == seamBeforeSync && s.tape.Draw(4) == 0 {
+			// wait for the save that runs over the end of its segment
+			arm.grown, arm.countdown = true, 1
+			if s.tape.Draw(2) == 0 {
+				arm.lose = "torn"
+			}
+			s.fault("crash-armed-on-grown-segment")
+		}
 		s.mu.Lock()
-		ns.inc.arm = &crashArm{kind: kindIdx, countdown: cd}
+		ns.inc.arm = arm
 		s.mu.Unlock()
 		s.fault("crash-armed")
 		s.journal(s.deathSig(), "arm crash of n%d at %s #%d", ns.id, seamNames[kindIdx], cd)
